@@ -247,7 +247,7 @@ PROPS['C05'] = {
     ],
 }
 PROPS['C01'] = {
-    'units': ['solver', 'print', 'unify', 'functions', 'solver_sld', 'solver_ext', 'solver_kb', 'rename', 'solutions_ids', 'compare', 'listops', 'append'],
+    'units': ['solver', 'print', 'unify', 'functions', 'solver_sld', 'solver_ext', 'solver_kb', 'rename', 'solutions_ids', 'replace_shape', 'replace_goal', 'compare', 'listops', 'append'],
     'functions': SOLVER_FNS + ['solutions.rs::format_solution'],
     'oracles': {'*': 'c01_prog', '#solve_all': 'c01_solve_all',
                 # the built-in predicates share their code with the reference interpreter of c01_prog: their own oracles give the witnesses
@@ -275,7 +275,7 @@ PROPS['C01'] = {
         'this rests on unify\'s #keeps (unit unify) and on the built-in predicates keeping the bindings they are given (#keeps_bindings, proved for all ten in units compare, listops, append). With C06\'s soundness of unify this is the soundness half of the equivalence at the level of bindings: an answer contains, unchanged, every binding made on the way to it',
         'NOT PROVED, bounded only: that the answers are exactly those of depth-first, left-to-right, clause-order resolution, in that order and multiplicity - a whole-history equivalence with a reference semantics, modulo renaming of unbound variables '
         '(clause renaming draws ids from a global counter that the search also rewinds); the random-program comparison stands in for it, labelled bounded',
-        'format_solution is PROVED (unit print): `$Var = value` for each variable among the query\'s arguments, in argument order, separated by ", ", the value being the corresponding argument of the result (#solution_text) - under the precondition that the result has the arity of the query (replace_variables keeps the shape; that precondition is not carried through solve / solve_all, where format_solution is abstract); Display of the value is uninterpreted',
+        'format_solution is PROVED (unit print): `$Var = value` for each variable among the query\'s arguments, in argument order, separated by ", ", the value being the corresponding argument of the result (#solution_text) - under the precondition that the result has the arity of the query (replace_variables keeps the shape; since 8.46 that precondition is PROVED at the call sites in solve / solve_all: replace_variables keeps the arity, units replace_shape / replace_goal; see C23); Display of the value is uninterpreted',
         'outside: parenthesised groups nested in groups (tokenizer, 8.25) and a cut inside a group with goals to its right inside the group (8.26) - observations, not generated',
     ],
 }
@@ -293,10 +293,19 @@ PROPS['C11'] = {
     ],
 }
 PROPS['C23'] = {
-    'units': ['solutions'],
-    'functions': ['solutions.rs::solve', 'solutions.rs::solve_all'],
-    'oracles': {'*': 'c22_make_query'},
+    'units': ['solutions', 'solutions_ids', 'replace_shape', 'replace_goal', 'print', 'solver_sld'],
+    'functions': ['solutions.rs::solve', 'solutions.rs::solve_all', 'solutions.rs::format_solution', 'goal.rs::Goal::replace_variables', 'unifiable.rs::Unifiable::replace_variables'],
+    'oracles': {'*': 'c22_make_query', '#reports_real_answers': 'c01_solve_all', '#report_inv': 'c01_solve_all', '#reports_a_real_answer': 'c01_prog', '#last_text_is_an_answer_unless_timed_out': 'c01_solve_all',
+                '#keeps_shape': 'c01_solve_all', '#shape_inv': 'c01_solve_all', 'unifiable.rs::Unifiable::replace_variables': 'c01_solve_all', 'goal.rs::Goal::replace_variables': 'c01_solve_all', '#replaces_in_the_term': 'c01_solve_all', '#solution_text': 'c01_solve_all', 'solutions.rs::format_solution': 'c01_solve_all',
+                '#answer_is_derivable': 'c01_prog'},
     'not_covered': [
+        'PROVED since 8.46 (unit solutions_ids, overlay rep): REAL ANSWERS - every text solve_all returns, except possibly the last, is the text format_solution gives for the query with its variables replaced under a COMPUTED ANSWER of the query '
+        '(an answer resolution derives: `entails`, the soundness clause #answer_is_derivable of next_solution, unit solver_sld); the last one is too unless the stop flag was found raised after the loop (then it is the time-out message); '
+        'solve returns "No more.", or such a text, unless it found the flag raised (#reports_real_answers, #report_inv, #last_text_is_an_answer_unless_timed_out, #reports_a_real_answer). '
+        'On the way: Goal::replace_variables is Unifiable::replace_variables on the query term and keeps its arity (units replace_goal, replace_shape: #keeps_shape proved on the verbatim body with NO precondition on the bindings), '
+        'so format_solution is called within its precondition (#pre_same_arity PROVED at both call sites) and its text clause #solution_text (unit print) applies. replace_variables is a function of its arguments there (T10: `replaced`); '
+        'the query goal is a complex goal (#pre_complex_query: replace_variables panics on any other)',
+        'the prefix / completeness half - that the texts are ALL the answers, in order, when the search ends within the limit - is the other direction of C01 (bounded there: c01_solve_all)',
         'PARTIAL.  PROVED (Verus, verbatim solve / solve_all over the node heap): the reporting discipline - whether the query was stopped is asked after each search step has returned, and the result of that step is looked at only afterwards and only if the flag was clear: '
         'an answer, or the end of the answers, that was computed while the query was being stopped (count_rules returns 0 then) is never reported (#flag_read_after_search, #result_used_after_flag); solve() returns NO_MORE exactly on that path when the step returned None (C05 clause); '
         'the timer armed by a call is cancelled on every path out and the search runs only after it was armed (C22 clauses): a timer of an earlier call cannot stop this one',
